@@ -309,7 +309,7 @@ func c05RekeyByIdentity(c *Ctx) {
 // else must have consulted (in a guard or a dominating test) at least one field of every suppressor.
 func c06SuppressorsDisjoin(c *Ctx) {
 	const rule = "SUPPRESSORS-DISJOIN"
-	c.Rule(rule, "no answer other than `ignore` is given before every suppressor was consulted", 2)
+	c.Rule(rule, "no answer other than `ignore` is given before every suppressor was consulted", 1)
 	p := c.P
 	pk := p.Pkg("private/bufpkg/bufcheck")
 	if pk == nil {
@@ -359,7 +359,12 @@ func c06SuppressorsDisjoin(c *Ctx) {
 				continue
 			}
 			if !isNilConst(r.Results[1]) {
-				continue // error exits
+				// `return helper(…)`: both results come from one call - a delegated answer, not an error exit
+				e0, ok0 := r.Results[0].(*ssa.Extract)
+				e1, ok1 := r.Results[1].(*ssa.Extract)
+				if !(ok0 && ok1 && e0.Tuple == e1.Tuple) {
+					continue // error exits
+				}
 			}
 			k, isConst := r.Results[0].(*ssa.Const)
 			rets = append(rets, ret{r, isConst && k.Value != nil && k.Value.ExactString() == "true"})
@@ -2573,12 +2578,21 @@ func ruleClosureFollowsAll(c *Ctx, rule string) {
 			n++
 			skips := 0
 			inspectNoFuncLit(rs.Body, func(x ast.Node) bool {
-				if b, ok := x.(*ast.BranchStmt); ok && (b.Tok == token.CONTINUE || b.Tok == token.BREAK || b.Tok == token.GOTO) {
-					skips++
+				b, ok := x.(*ast.BranchStmt)
+				if !ok || (b.Tok != token.CONTINUE && b.Tok != token.BREAK && b.Tok != token.GOTO) {
+					return true
 				}
+				// a dependency whose file is not in the image cannot be followed: `if !ok { continue }` after a
+				// comma-ok lookup, or `if f == nil { continue }`, is the nested-if form written as a guard
+				if b.Tok == token.CONTINUE {
+					if ifs := enclosingIf(p, b); ifs != nil && notFoundGuard(info, fr.Decl.Body, ifs.Cond) {
+						return true
+					}
+				}
+				skips++
 				return true
 			})
-			c.Ob(rule, declName(fr.Decl), rs.Pos(), skips == 0, true, "the loop over %s recurses for every dependency (continue/break statements in it: %d)", exprString(rs.X), skips)
+			c.Ob(rule, declName(fr.Decl), rs.Pos(), skips == 0, true, "the loop over %s recurses for every dependency it can find (continue/break statements other than not-found guards: %d)", exprString(rs.X), skips)
 			return true
 		})
 	}
@@ -3095,4 +3109,50 @@ func c12KeptImpliesWalked(c *Ctx, pk *packages.Package) {
 	}
 	ok := !(unknownKept && skipsImports)
 	c.Ob(rule, "hasType/unknown-kept-while-imports-unwalked", token.NoPos, ok, true, "hasType keeps elements whose mode is unknown: %v; the include-everything walk skips import files: %v (both together keep un-walked types of surviving import files without the imports they need)", unknownKept, skipsImports)
+}
+
+// notFoundGuard: cond is `!ok` with ok the second result of a map lookup, or `x == nil` with x the result of a lookup
+// (map index or call).
+func notFoundGuard(info *types.Info, body *ast.BlockStmt, cond ast.Expr) bool {
+	cond = ast.Unparen(cond)
+	var v types.Object
+	wantSecond := false
+	switch x := cond.(type) {
+	case *ast.UnaryExpr:
+		if x.Op == token.NOT {
+			v, wantSecond = identObj(info, x.X), true
+		}
+	case *ast.BinaryExpr:
+		if x.Op == token.EQL && isNilIdent(info, x.Y) {
+			v = identObj(info, x.X)
+		}
+	}
+	if v == nil {
+		return false
+	}
+	found := false
+	ast.Inspect(body, func(n ast.Node) bool {
+		as, ok := n.(*ast.AssignStmt)
+		if !ok || len(as.Rhs) != 1 {
+			return true
+		}
+		for i, l := range as.Lhs {
+			if identObj(info, l) != v {
+				continue
+			}
+			r := ast.Unparen(as.Rhs[0])
+			switch r.(type) {
+			case *ast.IndexExpr:
+				if (wantSecond && i == 1 && len(as.Lhs) == 2) || (!wantSecond && i == 0) {
+					found = true
+				}
+			case *ast.CallExpr:
+				if !wantSecond && i == 0 {
+					found = true
+				}
+			}
+		}
+		return true
+	})
+	return found
 }
